@@ -500,9 +500,13 @@ def evaluate(ctx: Ctx, cfg: dict) -> dict:
             # ---- inputs; a model with pooling sees every candidate through the recorded (un-jitted) forward pass
             #      and a candidate with a max-pool tie is replaced (the property excludes ties)
             xs = []
-            for _ in range(cfg["n_inputs"]):
+            for i_in in range(cfg["n_inputs"]):
                 for _attempt in range(4):
                     x = equiv.random_blocks(rng, sig_in, D, spatial, kind="normal")
+                    if i_in == cfg["n_inputs"] - 1 and cfg.get("small_last_input", True):
+                        # the last input of every model has amplitude 1e-3: activations whose covariance is
+                        # comparable to the normalisation epsilons (where an epsilon in the wrong place shows)
+                        x = {k: np.asarray(v) * np.float32(1e-3) for k, v in x.items()}
                     if trace is None or cfg["class"] == "unet":
                         stage = "forward pass on x"
                         events, out_shape, pools = traced_forward(model, x, D, torus)
